@@ -24,7 +24,9 @@ fn add_op_with_refs(c: &mut Circuit, op: &str, cells: &[Rc<RefCell<f64>>]) -> q1
         if tok.starts_with('@') { let cell: usize = tok[1..].parse().unwrap(); Parameter::from_refcell(&cells[cell], &format!("p{}", cell)) }
         else { Parameter::Direct(f64::from_bits(u64::from_str_radix(tok, 16).unwrap())) }
     };
-    let p = par(t[3 + k]);
+    // every second parameter reaches its gate as a CLONE of the Parameter (clones of a reference must stay live)
+    let par = |tok: &str| -> Parameter { let q = par(tok); if tok.len() % 2 == 0 { q.clone() } else { q } };
+    let p = par(t[3 + k]).clone();
     match name
     {
         "RX" => c.add_gate(RX::new(p), &bits), "RY" => c.add_gate(RY::new(p), &bits), "RZ" => c.add_gate(RZ::new(p), &bits),
@@ -189,6 +191,27 @@ fn main()
                     }
                 }
             }
+        }
+    }
+    // "asking for results or re-executing before any execution is an error" - also through the C interface
+    {
+        use q1tsim::ffi;
+        #[repr(C)] #[derive(Clone, Copy)]
+        struct RawResult { data: *const std::os::raw::c_void, length: usize, size: usize, restype: u32 }
+        fn raw(r: ffi::CResult) -> RawResult { unsafe { std::mem::transmute::<ffi::CResult, RawResult>(r) } }
+        fn unraw(r: RawResult) -> ffi::CResult { unsafe { std::mem::transmute::<RawResult, ffi::CResult>(r) } }
+        for (nq, nc) in [(1usize, 1usize), (2, 3), (0, 0)].iter()
+        {
+            let c = ffi::circuit_new(*nq, *nc);
+            if *nq > 0 { let n = std::ffi::CString::new("x").unwrap(); let b = [0usize]; ffi::result_free(ffi::circuit_add_gate(c, n.as_ptr(), b.as_ptr(), 1, std::ptr::null(), 0)); }
+            let mut probe = |what: &str, r: ffi::CResult| { let rr = raw(r); let t = rr.restype; let len = rr.length; ffi::result_free(unraw(rr));
+                out.case(&format!("prop | not-executed-is-an-error | c-interface {} on a circuit with {} qubits {} bits", what, nq, nc),
+                    &if t == 0 { "same".to_string() } else { format!("differs result-type={} length={} instead of an error", t, len) }); };
+            probe("circuit_cstate", ffi::circuit_cstate(c));
+            probe("circuit_histogram", ffi::circuit_histogram(c));
+            probe("circuit_reexecute", ffi::circuit_reexecute(c));
+            probe("circuit_cstate-after-refused-reexecute", ffi::circuit_cstate(c));
+            ffi::circuit_free(c);
         }
     }
     let n = out.finish();
